@@ -223,6 +223,9 @@ func (w *World) fault(op, path string) *Fault {
 		if f.Op != "mut" && f.Op != op {
 			continue
 		}
+		if op == "read" && f.Op != "read" {
+			continue // "mut" counts mutating operations only
+		}
 		if f.PathSuffix != "" && !strings.HasSuffix(path, f.PathSuffix) {
 			continue
 		}
@@ -794,6 +797,11 @@ func (f *File) ReadAt(b []byte, off int64) (int, error) {
 	}
 	f.w.mu.Lock()
 	defer f.w.mu.Unlock()
+	// a planned read error (transient: it fires once)
+	if ft := f.w.fault("read", f.name); ft != nil {
+		f.w.logOp("read %s off=%d len=%d -> EIO (planned)", filepath.Base(f.name), off, len(b))
+		return 0, pathErr("read", f.name, syscall.EIO)
+	}
 	if off >= int64(len(f.ino.data)) {
 		return 0, io.EOF
 	}
